@@ -192,23 +192,33 @@ def shrink(build, driver, case, cls, budget=200):
         for ti, t in enumerate(toks):
             if "|" not in t:
                 continue
+            pre = ""
+            if t.startswith("def:"):
+                pre, t = "def:", t[4:]
             parts = t.split("|")
             rules = [r for r in parts[0].split(";") if r]
             for ri in range(len(rules)):
                 nr = rules[:ri] + rules[ri + 1:]
-                yield " ".join(toks[:ti] + ["|".join([";".join(nr)] + parts[1:])] + toks[ti + 1:])
+                yield " ".join(toks[:ti] + [pre + "|".join([";".join(nr)] + parts[1:])] + toks[ti + 1:])
             for pi in range(1, len(parts)):
                 fs = [f for f in parts[pi].split(",") if f]
                 for fi in range(len(fs)):
                     nf = fs[:fi] + fs[fi + 1:]
-                    yield " ".join(toks[:ti] + ["|".join(parts[:pi] + [",".join(nf)] + parts[pi + 1:])] + toks[ti + 1:])
+                    yield " ".join(toks[:ti] + [pre + "|".join(parts[:pi] + [",".join(nf)] + parts[pi + 1:])] + toks[ti + 1:])
+
+    def drop_steps(text):
+        toks = text.split(" ")
+        if toks[0] in ("nfah", "tah", "bddh", "mtbddh", "storeh"):
+            for i in range(len(toks) - 1, 0, -1):
+                if not toks[i].startswith("def:"):
+                    yield " ".join(toks[:i] + toks[i + 1:])
 
     cur = case
     steps = 0
     improved = True
     while improved and steps < budget:
         improved = False
-        cands = list(variants(cur))[: 64]
+        cands = (list(drop_steps(cur)) + list(variants(cur)))[: 96]
         if not cands:
             break
         rs = run_cases(build, driver, cands)
